@@ -122,6 +122,13 @@ func TestVerifC19Expect(t *testing.T) {
 				case "notice-only":
 					content = "Copyright 2020 Example Corp\n" + vOOVBlock(r, 2)
 				}
+				// what precedes the text belongs to the file: blank lines, CRs, a byte order
+				// mark shift every line number if the tool were to strip them before Match
+				if content != "" && r.Intn(4) == 0 {
+					content = []string{"\n\n\n", "\r\n\r\n", " \t\n\n", "\ufeff", "\ufeff\n\n", "\n", "\n \n\t\n\n\n"}[r.Intn(7)] + content
+					kind += "+lead-in"
+					e.count("files_with_lead_in", 1)
+				}
 				abs := filepath.Join(dir, rel)
 				os.MkdirAll(filepath.Dir(abs), 0755)
 				if err := os.WriteFile(abs, []byte(content), 0644); err != nil {
